@@ -13,6 +13,7 @@ import (
 	"os"
 	"strings"
 	"time"
+	vctx "verif/vm/vctx"
 
 	"github.com/TarsCloud/TarsGo/tars"
 	"github.com/TarsCloud/TarsGo/tars/protocol/res/adminf"
@@ -348,6 +349,7 @@ type netConf struct {
 	handleTimeout int // ms, 0 = none
 	reqs          []reqSpec
 	conns         int // requests are dealt round-robin onto this many connections
+	shutdownAtMs  int // >0: the server is shut down (gracefully, ample context) at this time while requests keep arriving
 }
 
 func netScenario(c netConf) *vm.Scenario {
@@ -360,6 +362,16 @@ func netScenario(c netConf) *vm.Scenario {
 			panic(err)
 		}
 		vm.GoNamed("serve", func() { ts.Serve() })
+		if c.shutdownAtMs > 0 {
+			vm.GoNamed("shutdown", func() {
+				vm.Sleep(int64(c.shutdownAtMs) * 1e6)
+				ctx, cancel := vctx.WithTimeout(context.Background(), 10*time.Second)
+				defer cancel()
+				vm.Log("shutdown begins")
+				ts.Shutdown(ctx)
+				vm.Log("shutdown returned")
+			})
+		}
 		done := make(chan struct{}, c.conns)
 		for k := 0; k < c.conns; k++ {
 			k := k
@@ -543,6 +555,26 @@ func poolCheck(c netConf, r *vm.Result) string {
 	return e1.Multi(msgs, r.ObsString())
 }
 
+// poolCheckShutdown: the parallelism bound while the server shuts down; a request that arrives during the
+// shutdown may legitimately not be run at all (C12 judges that), but none runs twice.
+func poolCheckShutdown(c netConf, r *vm.Result) string {
+	m := poolCheck(c, r)
+	if m == "" {
+		return ""
+	}
+	var keep []string
+	for _, part := range strings.Split(strings.TrimPrefix(m, "MULTI\n"), "\n@@\n") {
+		if strings.HasPrefix(part, "listener-job-ran-0-times") {
+			continue
+		}
+		keep = append(keep, part)
+	}
+	if len(keep) == 0 {
+		return ""
+	}
+	return e1.Multi(keep, "")
+}
+
 // pad lengthens the command of q until the encoded request is exactly total bytes long.
 func pad(q reqSpec, total int) reqSpec {
 	base := q.cmd
@@ -605,6 +637,29 @@ func main() {
 						sc.Check = func(r *vm.Result) string { return poolCheck(cc, r) }
 						cases = append(cases, e1.Case{Sc: sc, Opt: vm.Options{Bound: b, StrictDev: true, Policy: pol}, Budget: budget, MinOutcomes: 1})
 					}
+				}
+			}
+		}
+		// the same bound while the server shuts down: two slow requests occupy the workers, Shutdown begins,
+		// three more requests arrive on the open connection within its drain window
+		for _, proto := range []string{"tcp"} {
+			for _, pool := range []int32{1, 2} {
+				var reqs []reqSpec
+				for i := int32(0); i < pool; i++ {
+					reqs = append(reqs, R(200+i, 1, 0, "notify", "slow300"))
+				}
+				for i := int32(0); i < 3; i++ {
+					q := R(210+i, 1, 0, "notify", "slow100")
+					q.atMs = 80
+					reqs = append(reqs, q)
+				}
+				c := netConf{name: "listener pool during shutdown", proto: proto, maxInvoke: pool, conns: 1, reqs: reqs, shutdownAtMs: 50}
+				for pol, pn := range []string{"oldest-first", "newest-first", "round-robin"} {
+					cc := c
+					cc.name = fmt.Sprintf("%s proto=%s MaxInvoke=%d shutdown at 50ms, 3 more requests at 80ms bound=1 policy=%s", c.name, proto, pool, pn)
+					sc := netScenario(cc)
+					sc.Check = func(r *vm.Result) string { return poolCheckShutdown(cc, r) }
+					cases = append(cases, e1.Case{Sc: sc, Opt: vm.Options{Bound: 1, StrictDev: true, Policy: pol}, Budget: budget, MinOutcomes: 1})
 				}
 			}
 		}
